@@ -452,7 +452,13 @@ class Component(CaselessDict):
                 else:
                     stack[-1].add_component(component)
                 if isinstance(component, Timezone) and 'TZID' in component:
-                    tzp.cache_timezone_component(component)
+                    try:
+                        tzp.cache_timezone_component(component)
+                    except ValueError:
+                        raise
+                    except (KeyError, AttributeError, AssertionError, TypeError) as e:
+                        # malformed VTIMEZONE, e.g. missing TZOFFSETTO or two TZIDs
+                        raise ValueError(f"Invalid VTIMEZONE: {e!r}") from e
             # we are adding properties to the current top of the stack
             else:
                 factory = types_factory.for_property(name)
